@@ -132,7 +132,7 @@ for (const line of lines) {
         const known = res.find((r) => r.helper === h && r.level === 'client' && r.under && r.under.length === 1);
         if (!known) continue;
         const name = known.under[0];
-        for (const mode of ['typed_default_only', 'map_default+typed_call', 'typed_default+map_call', 'typed_default+typed_call', 'typed_default+map_call_then_plain']) {
+        for (const mode of ['typed_default_only', 'map_default+typed_call', 'typed_default+map_call', 'typed_default+typed_call', 'typed_default+map_call_then_plain', 'typed_default+typed_call_then_plain', 'map_default+typed_call_then_plain']) {
           let rec = null;
           const fetchFn = async (url, init) => { rec = { headers: hdrObj(init && init.headers) }; return new Response('{}', { status: 200, headers: { 'Content-Type': 'application/json' } }); };
           try {
